@@ -165,6 +165,13 @@ def showOutcome : Outcome Bytes → String
 def cmdTime (dateFmt : Bytes) (cs : ClockSync) (clock : Nat) : String :=
   s!"local={showOutcome (Time.printLocal dateFmt cs clock)} utc={showOutcome (Time.printUTC dateFmt cs clock)}"
 
+/-- `timeseq <dateFmt hex> <cs>/<clock> <cs>/<clock> …`: ONE pretty printer prints the instants one after the other, each under
+    its own clock sync; what is printed for an instant does not depend on the ones printed before it -/
+def cmdTimeSeq (dateFmt : Bytes) (items : List (ClockSync × Nat)) : String :=
+  let locals := items.map fun x => showOutcome (Time.printLocal dateFmt x.1 x.2)
+  let utcs := items.map fun x => showOutcome (Time.printUTC dateFmt x.1 x.2)
+  s!"local={",".intercalate locals} utc={",".intercalate utcs}"
+
 /-- `bread <sorted> <fmt hex> <dateFmt hex> <file hex>` -/
 def cmdBread (sorted : Bool) (fmt dateFmt file : Bytes) : String :=
   let (text, err) := Bread.run sorted fmt dateFmt file
